@@ -198,7 +198,9 @@ func c03Trees(tier string) []map[string]interface{} {
 		// nested operators (an operator directly under an operator) over a small pool:
 		// every and/or/or+shortCircuit/not of arity 0..2 over {3 leaves + every
 		// operator over those 3 leaves}
-		tiny := []map[string]interface{}{leaves[1], leaves[2], leaves[9]}
+		// (two patterns binding ?x, one binding ?y - so that a disjunction can hand
+		// bindings over DIFFERENT variable sets to the next conjunct - and a code test)
+		tiny := []map[string]interface{}{leaves[1], leaves[2], leaves[3], leaves[9]}
 		pool := append([]map[string]interface{}{}, tiny...)
 		pool = append(pool, mk(tiny, true)...)
 		trees = append(trees, mk(pool, true)...)
@@ -408,7 +410,7 @@ func init() {
 	lib.Register(&lib.Check{
 		ID:    "C03",
 		Level: "model_checking",
-		Rule: "bounded-exhaustive enumeration of query trees (12 leaves: empty, 4 patterns sharing ?x/?y, 7 code templates; and/or/or+shortCircuit with arity 0..2, not; depth 2 over 12 leaves plus depth 3 over a 3-leaf pool quick, depth 3 over a 6-leaf pool thorough) x all 16 subsets of a 4-fact universe x {local, split child/parent} x state; each evaluated by Location.Query and (depth<=2) as a rule condition through ProcessEvent, compared as multisets with a reference evaluator; " +
+		Rule: "bounded-exhaustive enumeration of query trees (12 leaves: empty, 4 patterns sharing ?x/?y, 7 code templates; and/or/or+shortCircuit with arity 0..2, not; depth 2 over 12 leaves plus depth 3 over a 4-leaf pool quick, depth 3 over a 6-leaf pool thorough) x all 16 subsets of a 4-fact universe x {local, split child/parent} x state; each evaluated by Location.Query and (depth<=2) as a rule condition through ProcessEvent, compared as multisets with a reference evaluator; " +
 			"states = query trees, transitions = query evaluations; non-trivial = distinct (configuration, query, non-empty result)",
 		Assumptions: []string{
 			"core.Matches defines fact matching (C05)",
